@@ -1731,6 +1731,10 @@ private:
       num_remaining_lazy_rehash_locks(0);
     }
 
+    // Allocate the new buckets container before anything is modified, so
+    // that an allocation failure leaves the table untouched.
+    buckets_t new_buckets(new_hp, get_allocator());
+
     // Resize the locks array if necessary. This is done before we update the
     // hashpower so that other threads don't grab the new hashpower and the old
     // locks.
@@ -1741,7 +1745,7 @@ private:
     // buckets container, which will become the new current one. The
     // old_buckets_ data will be destroyed when move-assigning to buckets_.
     old_buckets_.swap(buckets_);
-    buckets_ = buckets_t(new_hp, get_allocator());
+    buckets_ = std::move(new_buckets);
 
     // If we have less than kMaxNumLocks buckets, we do a full rehash in the
     // current thread. On-demand rehashing wouldn't be very easy with less than
